@@ -400,7 +400,8 @@ def extract_comment_on_table(expression: exp.Expression) -> exp.Expression:
             new = expression.copy()
             new_props: exp.Properties = new.args["properties"]
             new_props.set("expressions", other_props)
-            new.args["table_comment"] = (table, comment)
+            if comment is not None:
+                new.args["table_comment"] = (table, comment)
             return new
     elif (
         isinstance(expression, exp.Comment)
